@@ -54,10 +54,16 @@ class Ctx:
             self.nodes[name] = Node(name)
         return self.nodes[name]
 
+    zoneinfo = False     # zone-aware stamps carry a zoneinfo.ZoneInfo object instead of pandas' default (pytz)
+
     def stamp(self, k, naive=False):
         if k is None:
             return None
-        return tl.stamp(self.g, k, naive=naive)
+        p = tl.stamp(self.g, k, naive=naive)
+        if self.zoneinfo and p.tzinfo is not None:
+            import zoneinfo
+            p = p.tz_convert(zoneinfo.ZoneInfo(self.g["tz"]))
+        return p
 
 
 def _container(vals, form, is_date=False):
@@ -161,7 +167,7 @@ def build_asset(a, ctx):
         if a.get("block") is not None:
             k["block_size"] = tl.freq_multiple(ctx.g["freq"], a["block"])
         return Storage(**k)
-    if t in ("plant", "chp", "chp_minload"):
+    if t in ("plant", "chp", "chp_minload", "chp_noheat"):
         k = _common(a, ctx)
         k.update(nodes=[ctx.node(n) for n in a["nodes"]], price=a.get("price"),
                  extra_costs=val(a.get("extra_costs", 0.0), ctx, naive),
@@ -180,6 +186,9 @@ def build_asset(a, ctx):
                 k[key] = np.array(a[key], dtype=float) if a.get("profile_form") == "array" else list(a[key])
         if t == "plant":
             return Plant(**k)
+        if t == "chp_noheat":
+            # a CHP declared without heat node through its documented constructor argument (what Plant does internally)
+            return CHPAsset(_no_heat=True, **k)
         for key in ("conversion_factor_power_heat", "max_share_heat"):
             if key in a:
                 k[key] = val(a[key], ctx, naive)
@@ -254,6 +263,7 @@ def intify(a):
 
 def build_assets(spec):
     ctx = Ctx(spec["grid"])
+    ctx.zoneinfo = bool(spec.get("zoneinfo"))
     assets = spec["assets"]
     if spec.get("ints"):
         assets = [intify(a) for a in assets]
